@@ -194,7 +194,32 @@ func readSink(e *Env, v ssa.Value, depth int) string {
 				return s
 			}
 		case *ssa.Return:
-			// returned to a caller: follow the call sites' extracts is beyond this helper; the caller's own read site is analysed in context
+			// returned to the caller of this calling context: what the caller does with that result
+			if e.Parent == nil || e.Call == nil {
+				continue
+			}
+			cv, isVal := e.Call.(ssa.Value)
+			if !isVal || cv.Referrers() == nil {
+				continue
+			}
+			for i, res := range u.Results {
+				if res != v {
+					continue
+				}
+				if len(u.Results) == 1 {
+					if s := readSink(e.Parent, cv, depth+1); s != "?" {
+						return s
+					}
+					continue
+				}
+				for _, cr := range *cv.Referrers() {
+					if ex, ok := cr.(*ssa.Extract); ok && ex.Index == i {
+						if s := readSink(e.Parent, ex, depth+1); s != "?" {
+							return s
+						}
+					}
+				}
+			}
 		}
 	}
 	return out
